@@ -356,6 +356,8 @@ def _leaf_pred_disjuncts(test, var):
       out.add('is_graph_node')
     elif isinstance(v, ast.Call) and astu.call_name(v) == 'isinstance' and astu.src(v.args[0]) == var and astu.src(v.args[1]).split('.')[-1] == 'Variable':
       out.add('Variable')
+    elif isinstance(v, ast.Call) and astu.call_tail(v) in ('is_node', 'is_pytree_node', 'is_node_type') and v.args and astu.src(v.args[0]) == var:
+      out.add(astu.call_tail(v))  # graph / pytree nodes only: does not include bare Variables
     elif isinstance(v, ast.Name):
       out.add('flag:' + v.id)
     else:
@@ -649,6 +651,21 @@ def check_aliasing_body(R, repo):
     R.unsure(key, (f, t.stmt), 'threshold `%s` not recognised' % astu.short(t.ast))
   raises = [n for n in c.nodes if isinstance(n.stmt, ast.Raise) and astu.raised_name(n.stmt) == 'ValueError' and 'aliasing' in astu.src(n.stmt).lower()]
   R.judge(bool(raises) or not evid.raises_deep(repo, f, 'ValueError'), bool(raises), key_of(f, 'inconsistent aliasing raises'), f, 'check_consistent_aliasing must raise ValueError for inconsistent aliasing')
+
+
+@rule('C04.R13', 'K4', 1, 'the outer split remembers *every* object it indexed (graph nodes and Variables) for the final merge')
+def r13(R, repo):
+  f = repo.func(GR, 'UpdateContext.flatten_end')
+  key = key_of(f, 'index -> object map inverts the whole reference map')
+  comps = [n for n in astu.body_walk(f.node) if isinstance(n, ast.DictComp) and isinstance(n.generators[0].iter, ast.Call) and astu.call_tail(n.generators[0].iter) == 'items']
+  if len(comps) != 1:
+    R.unsure(key, f, 'the {index: object} comprehension was not recognised')
+    return
+  g = comps[0].generators[0]
+  if g.ifs:
+    R.fail(key, (f, comps[0]), '`%s` leaves objects out of the index -> object map (`if %s`): the final merge cannot find the caller\'s object for those indices and builds fresh ones, so references the caller holds (e.g. to its Variables) go stale after every transform' % (astu.short(comps[0]), astu.short(g.ifs[0])))
+  else:
+    R.ok(key, (f, comps[0]))
 
 
 @rule('C04.R12', 'K4', 8, 'inner functions hand back the caller\'s graph nodes at every depth of the arguments (extract.clear_non_graph_nodes), not only top-level ones')
